@@ -58,3 +58,12 @@ check("C07", "exploration",
       "offline checker over recorded client-boundary histories: porcupine linearizability check against a register model (per file), torn-content classifier, chain checker for large Transform/Read histories; plus strace errno injection / RLIMIT_FSIZE short writes / failing function on a single Transform with byte-exact before/after comparison",
       "Multi-process x multi-goroutine clients record {client, op, unique payload ids, call, return} with CLOCK_MONOTONIC around the real Read/Write/Transform (delays injected at the lockedfile hooks, slow readers via Open+ReadAll); every per-file history plus a final quiescent read is checked. Fault part: every file operation of Transform (enumerated by a dry run) is made to fail once with each applicable errno, for all old/new length relations; after an error the file must equal the old bytes, after nil the new ones.",
       "Trusted: porcupine v1.3.0; CLOCK_MONOTONIC shared by all processes; strace injection as in C12. Schedules are sampled; the fault part is exhaustive at file-operation granularity for single faults (a fault during the rollback itself would be a second fault). Level: exploration for schedules, fault enumeration for the Transform part.")
+
+check("C09", "exploration",
+      "runtime monitors inside the user function (per-item call counters, atomic in-flight gauge with high-water mark, started/finished sets, 'Do has returned' flag) + independently computed reachable closure; termination decided by the Go runtime's deadlock detector in a non-race build and by goroutine-dump classification under a workload-relative watchdog in the race build; Go race detector",
+      "Tens of thousands of Do runs over generated item graphs (duplicates, self/back edges, chains, fans, trees, bursts) with n from 1 to 64, perturbation inside f at entry / between Adds / at exit, GOMAXPROCS 1/2/4/16, each batch in a child process in two builds. Evidence: runs, calls of f, distinct item start-order signatures, runs in which Adds arrived while a worker was idle.",
+      "Interleavings are sampled (perturbation + GOMAXPROCS), not enumerated under a controlled scheduler as the quantifier text suggests - that is a different technique family; a bug needing one specific rare order can be missed. 'Terminates' is restated as: every sampled run terminated, and a non-terminating one yields a runtime deadlock report or an all-parked goroutine dump.")
+check("C10", "exploration",
+      "runtime monitors inside f (call count per key, fresh result object published in the monitor, 'completed' flag as f's last action) checked after every Do/Get; rendezvous runs turn a blocking Get into a deadlock that the runtime detects; Go race detector on the unmodified double-checked locking",
+      "Hundreds of thousands of Do/Get calls by 2-32 goroutines on 1-6 keys (string / pointer / int keys, fast / slow / nested f), GOMAXPROCS 1/2/16, non-race and race builds. Evidence: Do calls that arrived while f for their key was in progress, completed rendezvous (a Get returned while f was inside).",
+      "Interleavings are sampled, not enumerated. The race detector reports only unsynchronised accesses that happened in the observed executions.")
